@@ -76,6 +76,8 @@ theorem collectE_rn (hν : Adm ν) (bs : List Name) : ∀ e : Expr,
     rw [rnStack_cons] at this
     simp only [rnE, collectE, collectE_rn hν bs coll, this, List.map_append]
   | .call f args => by simp only [rnE, collectE, collectE_rn hν bs f, collectEs_rn hν bs args, List.map_append]
+  | .pipe l f args => by
+    simp only [rnE, collectE, collectE_rn hν bs l, collectE_rn hν bs f, collectEs_rn hν bs args, List.map_append]
   | .builtin _ args => by simp only [rnE, collectE, collectEs_rn hν bs args]
   | .arrLit _ args _ => by simp only [rnE, collectE, collectEs_rn hν bs args]
   | .arrNew args _ => by simp only [rnE, collectE, collectEs_rn hν bs args]
